@@ -467,6 +467,18 @@ pub fn shrink_sim_case(v: &Value) -> Vec<Value> {
         return vec![];
     };
     let mut out: Vec<SimCase> = vec![];
+    for side in 0..2 {
+        let ms = if side == 0 { &c.mc } else { &c.ms };
+        for i in (0..ms.len()).rev() {
+            let mut d = c.clone();
+            if side == 0 {
+                d.mc.remove(i);
+            } else {
+                d.ms.remove(i);
+            }
+            out.push(d);
+        }
+    }
     let n = c.trace.len();
     if n > 1 {
         let mut chunk = n / 2;
@@ -486,18 +498,6 @@ pub fn shrink_sim_case(v: &Value) -> Vec<Value> {
                 break;
             }
             chunk /= 2;
-        }
-    }
-    for side in 0..2 {
-        let ms = if side == 0 { &c.mc } else { &c.ms };
-        for i in (0..ms.len()).rev() {
-            let mut d = c.clone();
-            if side == 0 {
-                d.mc.remove(i);
-            } else {
-                d.ms.remove(i);
-            }
-            out.push(d);
         }
     }
     for side in 0..2 {
